@@ -1,8 +1,10 @@
 package drive
 
 import (
+	"encoding/json"
 	"fmt"
 	"os"
+	"os/exec"
 	"path/filepath"
 	"sync"
 	"sync/atomic"
@@ -205,6 +207,20 @@ func (r *PlanResult) run(p *spec.MergePlan) (segment.Segment, string, [][]uint64
 		if err != nil {
 			return nil, "", nil, 0, fmt.Errorf("build leaf: %w", err)
 		}
+		if p.Child {
+			seg.Close()
+			path, err := BuildInChild(p.Leaf, p.ChunkMode)
+			if err != nil {
+				return nil, "", nil, 0, fmt.Errorf("leaf built by a child process: %w", err)
+			}
+			r.paths = append(r.paths, path)
+			o, err := Open(path)
+			if err != nil {
+				return nil, "", nil, 0, fmt.Errorf("open leaf written by a child process: %w", err)
+			}
+			r.toClose = append(r.toClose, o)
+			return o, path, nil, size, nil
+		}
 		if !p.Mmap {
 			r.toClose = append(r.toClose, seg)
 			return seg, "", nil, size, nil
@@ -252,4 +268,57 @@ func (r *PlanResult) run(p *spec.MergePlan) (segment.Segment, string, [][]uint64
 	r.toClose = append(r.toClose, o)
 	r.Nodes = append(r.Nodes, &NodeResult{Plan: p, Seg: o, Path: path, NewNums: nums, Size: size})
 	return o, path, nums, size, nil
+}
+
+// ChildJob is what BuildInChild hands to the child process.
+type ChildJob struct {
+	Batch     *spec.BatchSpec `json:"batch"`
+	ChunkMode uint32          `json:"chunkMode"`
+	Out       string          `json:"out"`
+}
+
+// ChildJobEnv names the environment variable through which the child finds its job file.
+const ChildJobEnv = "VERIF_CHILD_JOB"
+
+// BuildInChild has a fresh process (this test binary, running only TestVerifChildBuild) build the
+// batch and persist it; it returns the path. Such a file is what a process finds after a restart:
+// nothing process-wide (counters, random sources, pools) is shared with its writer.
+func BuildInChild(b *spec.BatchSpec, chunkMode uint32) (string, error) {
+	out := NewPath("child")
+	job := out + ".job"
+	data, err := json.Marshal(ChildJob{Batch: b, ChunkMode: chunkMode, Out: out})
+	if err != nil {
+		return "", err
+	}
+	if err := os.WriteFile(job, data, 0o600); err != nil {
+		return "", err
+	}
+	defer os.Remove(job)
+	cmd := exec.Command(os.Args[0], "-test.run=^TestVerifChildBuild$", "-test.count=1")
+	cmd.Env = append(os.Environ(), ChildJobEnv+"="+job, "VERIF_STATS_OUT=", "VERIF_STATS_PERPID=")
+	if outp, err := cmd.CombinedOutput(); err != nil {
+		return "", fmt.Errorf("child process: %v: %s", err, outp)
+	}
+	if _, err := os.Stat(out); err != nil {
+		return "", fmt.Errorf("child process wrote no file: %v", err)
+	}
+	return out, nil
+}
+
+// RunChildJob is the child's side.
+func RunChildJob(jobPath string) error {
+	data, err := os.ReadFile(jobPath)
+	if err != nil {
+		return err
+	}
+	var j ChildJob
+	if err := json.Unmarshal(data, &j); err != nil {
+		return err
+	}
+	seg, _, err := Build(j.Batch, j.ChunkMode)
+	if err != nil {
+		return err
+	}
+	defer seg.Close()
+	return seg.(*zap.SegmentBase).Persist(j.Out)
 }
